@@ -203,7 +203,10 @@ def run(ctx):
         deep = ("m", [(b"k%d: " % i, deep)]) if i % 2 else ("l", [("n",), deep])
     trees.append(deep)
     ctx.extra["max_depth"] = max(tree_depth(t) for t in trees)
-    scripts = [tree_ops(t) + [("yamlrt",), ("yamlrtf",), ("yamltree",)] for t in trees]
+    # aux holds an unrelated tree before the import: the importers must replace it (DP2)
+    prefill = [("set", b"old.k=v"), ("set", b"old.l[1]=w"), ("copyout", b"."), ("del", b".")]
+    TAIL = [("yamlrt",), ("yamlrtf",), ("yamltree",), ("yamlinto",), ("yamlintof",)]
+    scripts = [prefill + tree_ops(t) + TAIL for t in trees]
     ctx.sample({"tree_ops": [pl.op_show(o) for o in scripts[len(scripts) // 2]][:8]})
 
     # corpus first: fixed scripts ending in yamlrt / yamlrtf / yamltree
@@ -215,22 +218,38 @@ def run(ctx):
         ctx.traces_validated += 1
 
     # ------------------------------------------------------------------ a + b: library vs original, library vs model
-    done, found = pl.find_failures(c_cmd, m_cmd, scripts, env, nfields=_norm_c14, max_found=6)
-    for d in found:
+    rc, cres, cerr = pl.run_batch_parallel(c_cmd, scripts, env=env, nproc=min(8, vplib.NPROC))
+    _, mres, merr = pl.run_batch_parallel(m_cmd, scripts, nproc=min(8, vplib.NPROC))
+    if any(len(m) < len(s) for m, s in zip(mres, scripts)):
+        raise RuntimeError("model driver failed: " + merr[-500:])
+    found = pl.compare_results(scripts, cres, mres, _norm_c14)
+    for d in found[:6]:
+        if d.crashed():                     # re-run alone to get the sanitizer report of this script
+            d = pl.compare_one(c_cmd, m_cmd, d.script, env, _norm_c14) or d
         c13.report(ctx, d, "yaml-roundtrip", c_cmd, m_cmd, env, seen, _norm_c14)
+    if rc != 0 and not found:               # e.g. a leak report at exit
+        d = pl.Diff(scripts[-1], len(scripts[-1]) - 1, None, None, cerr, rc)
+        for s1 in scripts[:3]:
+            d1 = pl.compare_one(c_cmd, m_cmd, s1, env, _norm_c14)
+            if d1 is not None:
+                d = d1
+                break
+        c13.report(ctx, d, "yaml-roundtrip", c_cmd, m_cmd, env, seen, _norm_c14)
+        found = [d]
     ctx.obligation("tie:yaml-roundtrip-vs-model", not found, "%d trees, %d failures" % (len(scripts), len(found)))
-    rc, cres, cerr = pl.run_batch(c_cmd, scripts, env=env)
-    _, mres, _ = pl.run_batch(m_cmd, scripts)
     prop_fail = hyp_fail = 0
     for t, s, lines, mlines in zip(trees, scripts, cres, mres):
         if len(lines) < len(s):
             continue                    # crash: reported above
         ctx.count(hashlib.sha1(pl.script_text(s).encode()).hexdigest() if t[0] in ("m", "l") else None)
         ctx.traces_validated += 1
-        for j in (-3, -2):              # yamlrt, yamlrtf
+        for j in (-5, -4, -2, -1):      # yamlrt, yamlrtf, yamlinto, yamlintof
             f = lines[j].split(" ")
             orig = strip_alloc(f[3])
-            back = strip_alloc(f[2][2:]) if f[2].startswith("T:") else None
+            if j >= -2:
+                back = strip_alloc(f[4])                                  # aux after the import
+            else:
+                back = strip_alloc(f[2][2:]) if f[2].startswith("T:") else None
             if f[0] != "0" or back != orig:
                 prop_fail += 1
                 if prop_fail <= 2:
@@ -238,11 +257,11 @@ def run(ctx):
                     sm = _shrink_tree(c_cmd, env, t, j)
                     ctx.violation({"kind": "roundtrip", "op": s[j][0], "class": _text_class(sm)},
                                   "export -> import does not reproduce the tree (%s): %s" % (s[j][0], _describe(sm))[:500],
-                                  {"tree": repr(sm), "script": [pl.op_text(o) for o in tree_ops(sm)] + [s[j][0]],
+                                  {"tree": repr(sm), "script": [pl.op_text(o) for o in prefill + tree_ops(sm)] + [s[j][0]],
                                    "c_line": lines[j]})
         # c: hypotheses about libyaml
-        fy = lines[-1].split(" ")
-        my = mlines[-1].split(" ")
+        fy = lines[-3].split(" ")
+        my = mlines[-3].split(" ")
         if fy[2].startswith("Y:") and my[2].startswith("Y:"):
             why = y_compatible(parse_y(my[2][2:]), parse_y(fy[2][2:]))
             if why:
@@ -261,7 +280,7 @@ def run(ctx):
     cal_fail = 0
     for mode in ("global", "cal"):
         sub = [tree_ops(t) + [("calrt",)] for t in trees[:ncal]]
-        rc, cres, cerr = pl.run_batch([exe, mode], sub, env=env_noleak, timeout=900)
+        rc, cres, cerr = pl.run_batch_parallel([exe, mode], sub, env=env_noleak, timeout=900, nproc=min(4, vplib.NPROC))
         for t, s, lines in zip(trees, sub, cres):
             if len(lines) < len(s):
                 sig = vplib.asan_signature(cerr) or {"kind": "fault", "error": "exit %s" % rc, "function": None}
@@ -329,12 +348,15 @@ def _describe(t):
 
 
 def _fails(c_cmd, env, t, j):
-    s = tree_ops(t) + [("yamlrt",) if j == -3 else ("yamlrtf",)]
+    op = {-5: "yamlrt", -4: "yamlrtf", -2: "yamlinto", -1: "yamlintof"}[j]
+    s = [("set", b"old.k=v"), ("set", b"old.l[1]=w"), ("copyout", b"."), ("del", b".")] + tree_ops(t) + [(op,)]
     rc, res, err = pl.run_batch(c_cmd, [s], env=env, timeout=60)
     lines = res[0]
     if len(lines) < len(s):
         return True
     f = lines[-1].split(" ")
+    if j >= -2:
+        return f[0] != "0" or strip_alloc(f[4]) != strip_alloc(f[3])
     return f[0] != "0" or not f[2].startswith("T:") or strip_alloc(f[2][2:]) != strip_alloc(f[3])
 
 
@@ -349,6 +371,9 @@ def _shrink_tree(c_cmd, env, t, j, budget=120):
     while changed and runs[0] < budget:
         changed = False
         if t[0] in ("m", "l"):
+            if t[1] and fails((t[0], [])):                  # the empty collection
+                t, changed = (t[0], []), True
+                continue
             kids = [v for _, v in t[1]] if t[0] == "m" else list(t[1])
             for k in kids:                                  # a child alone
                 if fails(k):
